@@ -111,6 +111,10 @@ def sym(case):
             fresh[0] += 1
             if fresh[0] == 2 and ctype != 'json-nonone' and ctx.flag('second_value_is_None'):
                 return None            # None is a value like any other (unless the cache was told not to allow it)
+            if fresh[0] == 1 and ctype == 'json-nonone':
+                k_ = ctx.choice('first_value_kind', 6)       # falsy values are values (only None is refused)
+                if k_:
+                    return [None, 0, '', [], False, {}][k_]
             return ctx.sym_val(f'v{fresh[0]}')
         # ---- pre-state of key k1 in the main cache
         if pre == 'intact':
